@@ -77,6 +77,10 @@ pub struct Options {
     pub max_depth: usize,
     /// Seed put in the `Schedule` returned from `new_execution`.
     pub seed: u64,
+    /// Answer `next_u64` from the stream a built-in scheduler would produce for `seed`
+    /// (Pcg64Mcg seeded per execution) instead of branching over `rand_menu`: the execution is then
+    /// determined by (seed, task choices) like under the built-in schedulers, and replayable.
+    pub data_from_seed: bool,
 }
 
 impl Default for Options {
@@ -87,6 +91,7 @@ impl Default for Options {
             stop_children: false,
             max_depth: 400,
             seed: 0,
+            data_from_seed: false,
         }
     }
 }
@@ -120,6 +125,7 @@ pub struct State {
     pub last_path: Vec<Node>,
     /// Paths (and whether Stop was chosen) of all executions finished since the queue was last drained
     pub finished: Vec<(Vec<Node>, bool)>,
+    pub data_rng: Option<rand_pcg::Pcg64Mcg>,
 }
 
 #[derive(Clone)]
@@ -146,6 +152,7 @@ impl Explorer {
                 stopped: false,
                 last_path: Vec::new(),
                 finished: Vec::new(),
+                data_rng: None,
             })),
         }
     }
@@ -337,8 +344,13 @@ impl State {
                 }
             }
             NodeKind::Rand => {
-                for v in &self.opts.rand_menu {
-                    alts.push(Alt::Rand(*v));
+                if self.opts.data_from_seed {
+                    // (not reached: seeded draws are answered in `decide_rand_seeded`)
+                    alts.push(Alt::Rand(0));
+                } else {
+                    for v in &self.opts.rand_menu {
+                        alts.push(Alt::Rand(*v));
+                    }
                 }
             }
         }
@@ -387,6 +399,10 @@ impl Scheduler for Explorer {
         s.pos = 0;
         s.stats.executions += 1;
         DECISION.with(|d| d.set(0));
+        if s.opts.data_from_seed {
+            use rand::SeedableRng;
+            s.data_rng = Some(rand_pcg::Pcg64Mcg::seed_from_u64(s.opts.seed));
+        }
         Some(Schedule::new(s.opts.seed))
     }
 
@@ -412,6 +428,32 @@ impl Scheduler for Explorer {
 
     fn next_u64(&mut self) -> u64 {
         let mut s = self.st.borrow_mut();
+        if s.opts.data_from_seed {
+            // a draw is a step of the schedule but not a branching point
+            use rand::RngCore;
+            let v = s.data_rng.as_mut().expect("data rng").next_u64();
+            DECISION.with(|d| d.set(d.get() + 1));
+            s.stats.decisions += 1;
+            if s.pos < s.stack.len() {
+                if s.stack[s.pos].kind != NodeKind::Rand || s.stack[s.pos].alts != vec![Alt::Rand(v)] {
+                    let msg = format!("replay divergence at depth {}: recorded {:?}, now a draw of {}", s.pos, s.stack[s.pos].kind, v);
+                    s.diverged.get_or_insert(msg);
+                    let p = s.pos;
+                    s.stack.truncate(p);
+                }
+            }
+            if s.pos >= s.stack.len() {
+                let pb = s.preempt_before_next();
+                s.stack.push(Node {
+                    kind: NodeKind::Rand,
+                    alts: vec![Alt::Rand(v)],
+                    idx: 0,
+                    preempt_before: pb,
+                });
+            }
+            s.pos += 1;
+            return v;
+        }
         match s.decide(NodeKind::Rand) {
             Alt::Rand(v) => v,
             _ => {
@@ -477,4 +519,77 @@ impl Scheduler for FixedScheduler {
             }
         }
     }
+}
+
+
+/// One call made by the runtime to a scheduler, as seen by a recording wrapper.
+#[derive(Clone, Debug, PartialEq, Eq)]
+pub enum RecEvent {
+    NewExecution(Option<u64>),
+    Task {
+        offered: Vec<usize>,
+        current: Option<usize>,
+        yielding: bool,
+        chosen: Option<usize>,
+    },
+    Rand(u64),
+}
+
+/// Records every call and answer of the wrapped scheduler.
+pub struct RecSched<S: Scheduler> {
+    pub inner: S,
+    pub rec: Rc<RefCell<Vec<RecEvent>>>,
+}
+
+impl<S: Scheduler> RecSched<S> {
+    pub fn new(inner: S) -> (Self, Rc<RefCell<Vec<RecEvent>>>) {
+        let rec = Rc::new(RefCell::new(Vec::new()));
+        (RecSched { inner, rec: rec.clone() }, rec)
+    }
+}
+
+impl<S: Scheduler> Scheduler for RecSched<S> {
+    fn new_execution(&mut self) -> Option<Schedule> {
+        let r = self.inner.new_execution();
+        DECISION.with(|d| d.set(0));
+        self.rec.borrow_mut().push(RecEvent::NewExecution(r.as_ref().map(|s| s.seed)));
+        r
+    }
+    fn next_task(&mut self, runnable: &[&Task], current: Option<TaskId>, is_yielding: bool) -> Option<TaskId> {
+        // keep the decision stamp in step with what the explorer does, so that body logs compare equal
+        DECISION.with(|d| d.set(d.get() + 1));
+        let r = self.inner.next_task(runnable, current, is_yielding);
+        self.rec.borrow_mut().push(RecEvent::Task {
+            offered: runnable.iter().map(|t| usize::from(t.id())).collect(),
+            current: current.map(usize::from),
+            yielding: is_yielding,
+            chosen: r.map(usize::from),
+        });
+        r
+    }
+    fn next_u64(&mut self) -> u64 {
+        DECISION.with(|d| d.set(d.get() + 1));
+        let v = self.inner.next_u64();
+        self.rec.borrow_mut().push(RecEvent::Rand(v));
+        v
+    }
+}
+
+/// The calls the explorer saw on a path, in the same vocabulary.
+pub fn path_events(path: &[Node]) -> Vec<RecEvent> {
+    path.iter()
+        .map(|n| match (&n.kind, n.chosen()) {
+            (NodeKind::Task { offered, current, yielding }, alt) => RecEvent::Task {
+                offered: offered.iter().map(|o| o.id).collect(),
+                current: *current,
+                yielding: *yielding,
+                chosen: match alt {
+                    Alt::Task(t) => Some(*t),
+                    _ => None,
+                },
+            },
+            (NodeKind::Rand, Alt::Rand(v)) => RecEvent::Rand(*v),
+            (NodeKind::Rand, _) => RecEvent::Rand(0),
+        })
+        .collect()
 }
